@@ -51,6 +51,11 @@ func vgCodec(name string) vanguard.Codec {
 
 // canonical identity of a message: deterministic proto bytes
 func canon(m proto.Message) []byte {
+	if len(m.ProtoReflect().GetUnknown()) > 0 {
+		// unknown fields cannot survive a change of codec: they are not part of a message's identity
+		m = proto.Clone(m)
+		m.ProtoReflect().SetUnknown(nil)
+	}
 	b, err := proto.MarshalOptions{Deterministic: true}.Marshal(m)
 	if err != nil {
 		panic(err)
